@@ -221,6 +221,8 @@ static const char *cv_name(const void *cv, char *tmp) {
 static long n_switch = 0, n_bgdone = 0, n_bgwait = 0, n_wwait = 0, n_grp_multi = 0, n_grp = 0, n_l0max = 0, n_verchg = 0;
 static volatile long n_spur = 0, n_dropped = 0;
 static uint64_t last_logn = 0; static int last_bgs = 0; static const void *last_ver = NULL;
+static int p_failsync = 0;   /* fault injection: the n-th fsync/fdatasync of a table file fails with EIO (0 = off) */
+static volatile long n_tsync = 0; static unsigned char g_istable[4096];
 static int p_dropsig = 0, p_dropbc = 0; static volatile long n_wsig = 0, n_bgbc = 0;
 
 /* REQUIRES: db->mutex held by the calling thread */
@@ -381,15 +383,24 @@ int __wrap_pthread_create(pthread_t *th, const pthread_attr_t *a, void *(*f)(voi
 ssize_t __wrap_write(int fd, const void *buf, size_t n) { sched_point(); return __real_write(fd, buf, n); }
 ssize_t __wrap_read(int fd, void *buf, size_t n) { sched_point(); return __real_read(fd, buf, n); }
 ssize_t __wrap_pread(int fd, void *buf, size_t n, off_t off) { sched_point(); return __real_pread(fd, buf, n, off); }
-int __wrap_fsync(int fd) { sched_point(); return __real_fsync(fd); }
-int __wrap_fdatasync(int fd) { sched_point(); return __real_fdatasync(fd); }
+static int fail_this_sync(int fd) {
+  if (p_failsync > 0 && fd >= 0 && fd < 4096 && g_istable[fd] &&
+      __atomic_add_fetch(&n_tsync, 1, __ATOMIC_SEQ_CST) == p_failsync) { errno = EIO; return 1; }
+  return 0;
+}
+int __wrap_fsync(int fd) { sched_point(); if (fail_this_sync(fd)) return -1; return __real_fsync(fd); }
+int __wrap_fdatasync(int fd) { sched_point(); if (fail_this_sync(fd)) return -1; return __real_fdatasync(fd); }
 int __wrap_rename(const char *a, const char *b) { sched_point(); return __real_rename(a, b); }
 int __wrap_unlink(const char *p) { sched_point(); return __real_unlink(p); }
 int __wrap_open(const char *path, int flags, ...) {
   mode_t mode = 0; va_list ap;
   if (flags & O_CREAT) { va_start(ap, flags); mode = va_arg(ap, int); va_end(ap); }
   sched_point();
-  return __real_open(path, flags, mode);
+  {
+    int fd = __real_open(path, flags, mode); size_t n = strlen(path);
+    if (fd >= 0 && fd < 4096) g_istable[fd] = (n > 4 && !strcmp(path + n - 4, ".ldb") && (flags & (O_WRONLY | O_RDWR))) ? 1 : 0;
+    return fd;
+  }
 }
 
 /* ------------------------------------------------------------------ values */
@@ -666,6 +677,7 @@ static void parse_params(int argc, char **argv) {
     else if (!strcmp(argv[i], "pct_d")) p_pct_d = v;
     else if (!strcmp(argv[i], "pct_k")) p_pct_k = v;
     else if (!strcmp(argv[i], "reopen")) p_reopen = v;
+    else if (!strcmp(argv[i], "failsync")) p_failsync = v;
     else if (!strcmp(argv[i], "dropsig")) p_dropsig = v;
     else if (!strcmp(argv[i], "dropbc")) p_dropbc = v;
     else if (!strcmp(argv[i], "keys")) p_keys = strdup(eq + 1);
